@@ -550,12 +550,22 @@ VERSION_ARGS = [2, 3, 3.0, 3.1, 4, 4.0]
 PREFIX_FOR = {2: "", 3: "CVSS:3.0/", 3.0: "CVSS:3.0/", 3.1: "CVSS:3.1/", 4: "CVSS:4.0/", 4.0: "CVSS:4.0/"}
 
 
-def representative_answers(ctx, vnum):
+def representative_answers(ctx, vnum, reduced=False):
     legal = ctx.legal(vnum)
     toks = set()
     for vals in legal.values():
         toks |= set(vals)
     out = []
+    if reduced:
+        # two answers to one question are decided jointly: a smaller set per answer
+        for t in sorted(toks):
+            out += [t, t.lower(), " " + t + " "]
+        out += ["", " ", "?", "ND", "nd", "X", "x"]
+        seen = []
+        for a in out:
+            if a not in seen:
+                seen.append(a)
+        return tuple(seen)
     for t in sorted(toks):
         for a in (t, t.lower(), t.upper(), t.swapcase(), t.capitalize(), " " + t, t + " ", "\t" + t.lower() + " "):
             out.append(a)
@@ -679,14 +689,18 @@ def string_pieces(st, t):
                 raise AnalysisError("C16.semantic", "non-string piece %r in the result" % (p.v,), None)
             out.append(("c", p.v))
         else:
-            if len(p.slots) != 1:
+            if len(p.slots) > 2:
                 raise AnalysisError("C16.semantic", "a result piece depends on %d answers at once" % len(p.slots), None)
-            tab = dict((k[0], v) for k, v in p.table.items())
-            if out and out[-1][0] == "f" and out[-1][1] == p.slots[0]:
-                prev = out[-1][2]
-                out[-1] = ("f", p.slots[0], dict((k, prev[k] + tab[k]) for k in tab if k in prev))
+            if len(p.slots) == 2:
+                # first try and retry of one question: a table over the pair
+                key, tab = tuple(p.slots), dict(p.table)
             else:
-                out.append(("f", p.slots[0], tab))
+                key, tab = p.slots[0], dict((k[0], v) for k, v in p.table.items())
+            if out and out[-1][0] == "f" and out[-1][1] == key:
+                prev = out[-1][2]
+                out[-1] = ("f", key, dict((k, prev[k] + tab[k]) for k in tab if k in prev))
+            else:
+                out.append(("f", key, tab))
     return out
 
 
@@ -704,42 +718,49 @@ def check_builder_semantics(ctx, led, rule="C16.semantic"):
         for all_metrics in (False, True):
             label = "ask_interactively(version=%r, all_metrics=%s)" % (version, all_metrics)
             ck = "interactive.ask_interactively::%s" % label
-            space = Space()
-            ev = Evaluator(ctx, space)
-            ev.retry_loops = True
-            ev.keep_pieces = True
-            from .interp import Builtin
-
-            ev.global_overrides = {("interactive", "string_input"): Builtin("input")}
-            domain = representative_answers(ctx, vnum) if vnum else ("",)
-            counter = [0]
-
-            probes = [0]
-
-            def hook(st, node, mod, probe=False, counter=counter, space=space, domain=domain, probes=probes):
-                if probe:
-                    slot = "probe:%03d" % probes[0]
-                    probes[0] += 1
-                    space.add(slot, domain)
-                    st.dom[slot] = domain
-                    return Fin((slot,), dict(((a,), a) for a in domain))
-                slot = "ans:%03d" % counter[0]
-                counter[0] += 1
-                space.add(slot, domain)
-                st.dom[slot] = domain
-                return Fin((slot,), dict(((a,), a) for a in domain))
-
-            ev.input_hook = hook
-            st = ev.new_state()
             from fractions import Fraction
 
             from .consteval import Flt
+            from .interp import Builtin
 
-            varg = Const(version) if isinstance(version, int) else Const(Flt(Fraction(str(version)), str(version)))
-            try:
-                val = ev.inline(st, f, None, [varg, Const(all_metrics), Const(True)], {}, f.node, module)
-            except Dead:
-                val = None
+            def run_builder(domain):
+                space = Space()
+                ev = Evaluator(ctx, space)
+                ev.retry_loops = True
+                ev.keep_pieces = True
+                ev.global_overrides = {("interactive", "string_input"): Builtin("input")}
+                counter = [0]
+                probes = [0]
+
+                def hook(st, node, mod, probe=False):
+                    if probe:
+                        slot = "probe:%03d" % probes[0]
+                        probes[0] += 1
+                    else:
+                        slot = "ans:%03d" % counter[0]
+                        counter[0] += 1
+                    space.add(slot, domain)
+                    st.dom[slot] = domain
+                    return Fin((slot,), dict(((a,), a) for a in domain))
+
+                ev.input_hook = hook
+                st = ev.new_state()
+                varg = Const(version) if isinstance(version, int) else Const(Flt(Fraction(str(version)), str(version)))
+                try:
+                    val = ev.inline(st, f, None, [varg, Const(all_metrics), Const(True)], {}, f.node, module)
+                except Dead:
+                    val = None
+                return ev, st, val, counter
+
+            domain = representative_answers(ctx, vnum) if vnum else ("",)
+            ev, st, val, counter = run_builder(domain)
+            if vnum:
+                n_questions = len(ctx.vspec(vnum)["order"] if all_metrics else ctx.vspec(vnum)["mandatory"])
+                if counter[0] > n_questions:
+                    # more reads than questions (a first try before the retry loop): the answers of
+                    # one question are decided jointly, over a smaller set per answer
+                    domain = representative_answers(ctx, vnum, reduced=True)
+                    ev, st, val, counter = run_builder(domain)
             evs = list(ev.events)
             if version == 5.0:
                 led.check(
@@ -799,7 +820,8 @@ def check_builder_semantics(ctx, led, rule="C16.semantic"):
             )
             if body is None:
                 continue
-            good = len(fpieces) == len(asked) == counter[0] and sorted(order_found) == sorted(asked) and len(set(slots_in_order)) == len(slots_in_order)
+            n_slots = sum(len(x) if isinstance(x, tuple) else 1 for x in slots_in_order)
+            good = len(fpieces) == len(asked) and n_slots == counter[0] and sorted(order_found) == sorted(asked) and len(set(slots_in_order)) == len(slots_in_order)
             led.check(
                 good,
                 rule + ".asked",
@@ -817,6 +839,41 @@ def check_builder_semantics(ctx, led, rule="C16.semantic"):
             for i, (k, (_, slot, tab)) in enumerate(zip(asked, fpieces)):
                 expected.append(("c", (PREFIX_FOR[version] if i == 0 else "/") + k + ":"))
                 etab = {}
+                if isinstance(slot, tuple):
+                    # first try a1, retry a2: a1 decides when it is accepted, otherwise a2 does (a
+                    # rejected a2 is asked again: no row)
+                    never = [a for a in domain if expected_answer(legal[k], nd, a)[0] == "reject"]
+                    for a1 in domain:
+                        k1, c1 = expected_answer(legal[k], nd, a1)
+                        took1 = any((a1, r) in tab for r in never)
+                        if k1 == "accept" and not took1 and bad is None:
+                            bad = "the legal first answer %r for %s is not accepted" % (a1, k)
+                        if k1 == "reject" and took1 and bad is None:
+                            bad = "the first answer %r is accepted for %s, but it is not a legal value of %s" % (a1, k, k)
+                        if k1 == "either" and took1 and c1 is None and bad is None:
+                            bad = "the first answer %r is accepted for %s, but it is not a legal value of %s" % (a1, k, k)
+                        for a2 in domain:
+                            n_ans += 1
+                            if took1:
+                                etab[(a1, a2)] = c1
+                                continue
+                            k2, c2 = expected_answer(legal[k], nd, a2)
+                            accepted = (a1, a2) in tab
+                            if k2 == "accept":
+                                etab[(a1, a2)] = c2
+                                if not accepted and bad is None:
+                                    bad = "after the rejected answer %r, the legal answer %r for %s is never accepted (the question is repeated for ever)" % (a1, a2, k)
+                            elif k2 == "reject":
+                                if accepted and bad is None:
+                                    bad = "after the rejected answer %r, the answer %r is accepted for %s, but it is not a legal value of %s" % (a1, a2, k, k)
+                            elif accepted:
+                                if c2 is None:
+                                    if bad is None:
+                                        bad = "the answer %r is accepted for %s, but it is not a legal value of %s" % (a2, k, k)
+                                else:
+                                    etab[(a1, a2)] = c2
+                    expected.append(("f", slot, etab))
+                    continue
                 for a in domain:
                     n_ans += 1
                     kind, canon = expected_answer(legal[k], nd, a)
@@ -882,6 +939,7 @@ def check_c16(ctx, led):
             "the builder could not be interpreted symbolically (%s): the structural idiom rules decide instead" % e.message,
         )
         semantic_ok = False
+        sem_error = e
         n = 0
     if semantic_ok:
         class _Structural(InfoLedger):
@@ -896,4 +954,10 @@ def check_c16(ctx, led):
         except AnalysisError as e:
             led.info("C16.structural", "interactive.ask_interactively", "cvss/interactive.py", "idiom rules not applicable: %s" % e.message)
         return n
-    return check_c16_structural(ctx, led)
+    # the idiom rules know one way of writing the builder: neither their silence nor their
+    # complaints decide a builder the semantic analysis could not follow
+    try:
+        check_c16_structural(ctx, InfoLedger(led))
+    except AnalysisError:
+        pass
+    raise sem_error
